@@ -123,7 +123,13 @@ func (g *hg) key() string {
 }
 
 func (g *hg) literal() Op {
-	switch g.pick("lit", 12) {
+	switch g.pick("lit", 15) {
+	case 12: // nested three levels deep
+		return Op{Expr: "{:a {:b {:c 1 :d [1 2]} :e 2} :f [[[1 2] 3] 4]}", Kind: "deepmap"}
+	case 13:
+		return Op{Expr: "(hash-map :a (hash-map :b (hash-map :c 1 :d [1 2]) :e 2) :f [[[1 2] 3] 4])", Kind: "deepmap"}
+	case 14:
+		return Op{Expr: "[[[1 2] {:k [3]}] [4]]", Kind: "deepvec"}
 	case 10: // code as data: a macro call in argument position
 		return Op{Expr: "(quote (list 1 (cond false 2 true 3) (and 1 2)))", Kind: "list"}
 	case 11:
@@ -153,7 +159,7 @@ func (g *hg) literal() Op {
 func (g *hg) step() Op {
 	seqKinds := []string{"list", "vec"}
 	for tries := 0; tries < 6; tries++ {
-		switch c := gen.Uniform(g.t, "op", 36); {
+		switch c := gen.Uniform(g.t, "op", 38); {
 		case c == 0:
 			return g.literal()
 		case c <= 3:
@@ -367,6 +373,35 @@ func (g *hg) step() Op {
 			if p, ok := g.parent("list", "vec"); ok {
 				b := []string{"tl-build", "tl-build2"}[g.pick("tlb", 2)]
 				return Op{Expr: "(first (" + b + " " + p + " 3 []))", Kind: "closure", Call: true, Same: p}
+			}
+		case c == 35: // updates three levels down
+			if p, ok := g.parent("deepmap"); ok {
+				switch g.pick("deepop", 5) {
+				case 0:
+					return Op{Expr: "(update-in " + p + " [:a :b :c] (fn (x) 99))", Kind: "deepmap", Parent: p}
+				case 1:
+					return Op{Expr: "(assoc-in " + p + " [:a :b :c] 98)", Kind: "deepmap", Parent: p}
+				case 2:
+					return Op{Expr: "(update-in " + p + " [:a :b :d] (fn (x) (conj x 3)))", Kind: "deepmap", Parent: p}
+				case 3:
+					return Op{Expr: "(assoc-in " + p + " [:f 0 0 1] 97)", Kind: "deepmap", Parent: p}
+				default:
+					return Op{Expr: "(get-in " + p + " [:a :b])", Kind: "map", Parent: p, View: true}
+				}
+			}
+			if p, ok := g.parent("deepvec"); ok {
+				switch g.pick("deepvop", 3) {
+				case 0:
+					return Op{Expr: "(update-in " + p + " [0 0 1] (fn (x) 96))", Kind: "deepvec", Parent: p}
+				case 1:
+					return Op{Expr: "(assoc-in " + p + " [0 0 0] 95)", Kind: "deepvec", Parent: p}
+				default:
+					return Op{Expr: "(nth (nth " + p + " 0) 0)", Kind: "vec", Parent: p, View: true}
+				}
+			}
+		case c == 36: // a handler whose catch variable is named like a bound value
+			if p, ok := g.parent("list", "vec", "map", "set", "deepmap"); ok {
+				return Op{Expr: "(try (throw \"boom\") (catch " + p + " (count " + p + ")))", Kind: "scalar"}
 			}
 		case c == 31: // reduce with conj: many extensions in a row
 			if p, ok := g.parent(seqKinds...); ok {
